@@ -393,3 +393,78 @@ impl DecodeAttributeValue for Icmp {
     }
 //@end
 }
+// props: C01 C02
+proof fn lemma_roundtrip_Icmp(x: Icmp, enc: Seq<u8>)
+    ensures Icmp::unwire(x.wire(enc), enc) == Some(x),
+{
+    broadcast use axiom_bounded_u8_ext, axiom_bounded_u16_ext;
+    let raw = x.wire(enc);
+    let t = x.icmp_type.val() as int;
+    let c = x.icmp_code.val() as int;
+    axiom_bounded_u8_ext(x.icmp_type, x.icmp_type);
+    axiom_bounded_u16_ext(x.icmp_code, x.icmp_code);
+    lemma_be16_roundtrip(icmp_word(t, c));
+    assert(raw.subrange(2, 4) =~= be16_seq(icmp_word(t, c)));
+    assert(raw.subrange(4, 8) =~= x.error_data@);
+    let w = be16(raw.subrange(2, 4));
+    assert(w / 512 == t && w % 512 == c);
+    let x1 = choose|y: Icmp| y.icmp_type.val() == w / 512 && y.icmp_code.val() == w % 512 && y.error_data@ == raw.subrange(4, 8);
+    assert(x1.error_data@ =~= x.error_data@);
+    vstd::array::axiom_array_ext_equal(x1.error_data, x.error_data);
+}
+
+// ---------------------------------------------------------------- ADDRESS-ERROR-CODE (RFC 8656 18.12): family(8) reserved(13) class(3) number(8) reason
+//@item! stun_rs :: mod attributes > mod turn > mod address_error_code > struct AddressErrorCode
+//@consts stun_rs :: mod attributes > mod turn > mod address_error_code
+impl StunAttributeType for AddressErrorCode {
+    open spec fn spec_type() -> u16 { 0x8001 }
+//@item stun_rs :: mod attributes > mod turn > mod address_error_code > impl crate::attributes::StunAttributeType for AddressErrorCode > fn get_type
+//@tags C02 C01
+//@end
+//@item stun_rs :: mod attributes > mod turn > mod address_error_code > impl crate::attributes::StunAttributeType for AddressErrorCode > fn attribute_type
+//@tags C02 C01
+//@end
+}
+impl AddressErrorCode {
+//@item stun_rs :: mod attributes > mod turn > mod address_error_code > impl AddressErrorCode > fn new
+//@tags C19
+//@spec
+    ensures r.family == family, r.error_code == error_code,
+//@end
+//@item stun_rs :: mod attributes > mod turn > mod address_error_code > impl AddressErrorCode > fn family
+//@tags C19
+//@spec
+    ensures r == self.family,
+//@end
+//@item stun_rs :: mod attributes > mod turn > mod address_error_code > impl AddressErrorCode > fn error_code
+//@tags C19
+//@spec
+    ensures *r == self.error_code,
+//@end
+}
+impl EncodeAttributeValue for AddressErrorCode {
+    open spec fn wire(&self, enc: Seq<u8>) -> Seq<u8> {
+        error_code_wire(self.error_code.code() as int, self.error_code.reason_chars()).update(0, family_code(self.family))
+    }
+    open spec fn encodable(&self, enc: Seq<u8>) -> bool { vstd::utf8::encode_utf8(self.error_code.reason_chars()).len() <= 509 }
+//@item stun_rs :: mod attributes > mod turn > mod address_error_code > impl EncodeAttributeValue for AddressErrorCode > fn encode
+//@tags C01 C02 C14
+//@rules R5P
+//@stmt "Ok(size)"
+    proof {
+        assert(raw_value@.subrange(0, size as int) =~= error_code_wire(self.error_code.code() as int, self.error_code.reason_chars()).update(0, family_code(self.family)));
+    }
+//@end
+}
+impl DecodeAttributeValue for AddressErrorCode {
+    open spec fn unwire(raw: Seq<u8>, prefix: Seq<u8>) -> Option<Self> {
+        if raw.len() >= 1 && family_of(raw[0]) is Some && error_code_unwire(raw) is Some {
+            Some(AddressErrorCode { family: family_of(raw[0])->Some_0, error_code: error_code_unwire(raw)->Some_0 })
+        } else { None }
+    }
+//@item stun_rs :: mod attributes > mod turn > mod address_error_code > impl DecodeAttributeValue for AddressErrorCode > fn decode
+//@tags C01 C02 C03 C19
+//@stmt "Ok((AddressErrorCode::new(family, error_code), size))"
+    proof { lemma_error_code_unwire_unique(ctx.raw_value@, error_code); }
+//@end
+}
